@@ -2,6 +2,7 @@
  * Inputs come from the file named by VF_REPLAY: whitespace separated tokens
  *   c <v>   next skeleton choice      n <v>   next nondet value (64-bit, two's complement)
  * Missing nondet values read as 0. Exit codes: 42 = assertion failed, 77 = assumption violated. */
+#define _GNU_SOURCE
 #include <stdio.h>
 #include <stdlib.h>
 #include <string.h>
@@ -38,10 +39,48 @@ int vf_choice(int n) {
   return v;
 }
 void vf_choice_end(void) { if (ch_pos != ch_n) { fprintf(stderr, "VF_SPEC skeleton vector not fully consumed\n"); _Exit(3); } }
-void vf_out(long v) { printf("OUT %ld\n", v); }
+void vf_out(long v) { printf("OUT %ld\n", v); fflush(stdout); }
 void vf_witness(void) { }
 #else
 /* translated-C build: rt.h provides the interface; it only needs the choice vector */
 int VF_CHOICES[65536]; int VF_NCHOICES;
 void vf_native_load_choices(void) { load(); for (int i = 0; i < ch_n; i++) VF_CHOICES[i] = ch_vals[i]; VF_NCHOICES = ch_n; }
+#endif
+
+#ifndef VF_TRANSLATED
+/* Native virtual clock (C12), the counterpart of rt_clock_ns in rt.h. Inactive until a harness calls vf_clock_set():
+ * from then on std::chrono::system_clock::now() reads the virtual clock and a timed condition-variable wait advances it to
+ * the deadline and reports a time-out (no other thread exists in these harnesses). Before that, both behave as usual. */
+#include <time.h>
+#include <errno.h>
+#include <dlfcn.h>
+#include <pthread.h>
+static int vclock_on; static long long vclock_ns; static long vclock_waits;
+void vf_clock_set(long ns) { vclock_on = 1; vclock_ns = ns; }
+long vf_clock_now(void) { return (long)vclock_ns; }
+long vf_clock_waits(void) { return vclock_waits; }
+long _ZNSt6chrono3_V212system_clock3nowEv(void) {
+  if (vclock_on) return (long)vclock_ns;
+  struct timespec ts; clock_gettime(CLOCK_REALTIME, &ts);
+  return (long)ts.tv_sec * 1000000000L + ts.tv_nsec;
+}
+static int vclock_wait(const struct timespec *ts) {
+  if (ts->tv_sec >= 9223372036L) { fflush(stdout); fprintf(stderr, "VF_ASSERT_FAILED: rt: condition_variable wait without deadline and no other thread to notify (blocks forever)\n"); _Exit(42); }
+  long long d = (long long)ts->tv_sec * 1000000000LL + ts->tv_nsec;
+  if (d > vclock_ns) vclock_ns = d;
+  vclock_waits++;
+  return ETIMEDOUT;
+}
+int pthread_cond_timedwait(pthread_cond_t *c, pthread_mutex_t *m, const struct timespec *ts) {
+  if (vclock_on) return vclock_wait(ts);
+  static int (*real)(pthread_cond_t*, pthread_mutex_t*, const struct timespec*);
+  if (!real) real = (int (*)(pthread_cond_t*, pthread_mutex_t*, const struct timespec*))dlsym(RTLD_NEXT, "pthread_cond_timedwait");
+  return real(c, m, ts);
+}
+int pthread_cond_clockwait(pthread_cond_t *c, pthread_mutex_t *m, clockid_t clk, const struct timespec *ts) {
+  if (vclock_on) return vclock_wait(ts);
+  static int (*real)(pthread_cond_t*, pthread_mutex_t*, clockid_t, const struct timespec*);
+  if (!real) real = (int (*)(pthread_cond_t*, pthread_mutex_t*, clockid_t, const struct timespec*))dlsym(RTLD_NEXT, "pthread_cond_clockwait");
+  return real(c, m, clk, ts);
+}
 #endif
